@@ -11,12 +11,18 @@
       number of threads and every schedule: mutual exclusion, no lost wake-up,
       and deadlock freedom: while some call has not returned, some thread can
       move; when all have returned nothing is held.
-  Programs are finite trees, so with (3) every schedule ends with all calls
+  (4) the same for the program texts themselves under the interleaving semantics
+      of `Conc.lean` (any number of threads, any calls, any schedule, any fault
+      plan): while some call has not returned some thread can take a step, and when
+      all have returned the four lists are empty (`Proofs/ConcSafe.lean`).
+  Programs are finite trees, so with (3)/(4) every schedule ends with all calls
   returned. Trusted: that `threading.Condition` / `multiprocessing.Condition`
   implement this monitor.
 -/
 import HSModel.Proofs.DiscRun
 import HSModel.Proofs.LockLemmas
+import HSModel.Proofs.SerialSpec
+import HSModel.Proofs.ConcSafe
 namespace HS.C08
 variable (cfg : Config) (o : Oracle)
 
@@ -102,5 +108,42 @@ example : ∃ s, Reach Sys.initial s ∧ ∃ l, (s 1).st = .asleep l := by
   have r3 : Reach Sys.initial s3 := .step _ _ _ r2 (.request s2 1 l (by simp [s2, s1, upd, Sys.initial])
     (by intro h hh; simp [s2, s1, upd, Sys.initial] at hh))
   exact .step _ _ _ r3 (.sleep s3 1 l (by simp [s3]) ⟨0, by simp [s3, s2, upd]⟩)
+
+/-! ### (4) the same on the program texts, under the interleaving semantics -/
+
+/-- **No deadlock under any schedule.** Any number of threads, each running any
+    public call with any arguments, started on any directory with free lock
+    lists and under any fault plan; any schedule of the interleaving semantics
+    of `Conc.lean`, any step budget. In the configuration reached, if some call
+    has not returned then some thread can take a step. (The invariant carried
+    through `runSchedule`: each thread's remaining program is lock-disciplined
+    from its own account of what it holds, the accounts are in the world's
+    lists, pairwise disjoint, and together cover the lists —
+    `Proofs/ConcSafe.lean`.) -/
+theorem no_deadlock_under_any_schedule (calls : List Call) (w0 : World) (h0 : w0.lk = {}) (fuel : Nat)
+    (sched : List Nat) :
+    let fin := (runSchedule fuel { w := w0, ts := (calls.map (Call.tprog cfg o)).map .fresh } sched 0).1
+    fin.allFinished = false → fin.anyEnabled = true := by
+  intro fin hnf
+  have hd : ∀ p ∈ calls.map (Call.tprog cfg o), p.Disc Post0 [] := by
+    intro p hp
+    obtain ⟨x, _, rfl⟩ := List.mem_map.mp hp
+    exact call_neutral cfg o x
+  obtain ⟨hs, g⟩ := ginv_schedule fuel sched _ 0 _ (ginv_initial _ w0 h0 hd)
+  exact ginv_no_deadlock g hnf
+
+/-- … and when all calls have returned, all four lock lists are empty again:
+    every identifier that was involved can be operated on without blocking -/
+theorem all_returned_nothing_locked_under_any_schedule (calls : List Call) (w0 : World) (h0 : w0.lk = {})
+    (fuel : Nat) (sched : List Nat) :
+    let fin := (runSchedule fuel { w := w0, ts := (calls.map (Call.tprog cfg o)).map .fresh } sched 0).1
+    fin.allFinished = true → fin.w.lk = {} := by
+  intro fin hf
+  have hd : ∀ p ∈ calls.map (Call.tprog cfg o), p.Disc Post0 [] := by
+    intro p hp
+    obtain ⟨x, _, rfl⟩ := List.mem_map.mp hp
+    exact call_neutral cfg o x
+  obtain ⟨hs, g⟩ := ginv_schedule fuel sched _ 0 _ (ginv_initial _ w0 h0 hd)
+  exact ginv_all_finished_free g hf
 
 end HS.C08
